@@ -102,7 +102,9 @@ def multiply(
     # only correct for single-byte (ASCII) key characters and for the
     # coefficient types it knows.
     single_byte_keys = int(numpy.max(exponents, initial=0)) + x1.KEY_OFFSET < 128
-    if (
+    if not out_.size:
+        pass  # empty arrays have no coefficients to multiply
+    elif (
         single_byte_keys
         and numpy.dtype(dtype) in kernel_dtypes
         and x1.dtype in kernel_dtypes
